@@ -587,3 +587,182 @@ func FuzzDecodeYAML(f *testing.F) {
 		}
 	})
 }
+
+// ---------------------------------------------------------------------------
+// Layered merges: a chain of anchored mappings, each merging earlier layers several times over
+// (sequence form, repeated `<<` entries, the same layer twice, "diamonds" through two intermediate
+// layers). The merged content stays tiny - a handful of keys - however many paths lead to a layer,
+// so decoding must stay cheap; the expected content is computed layer by layer (each layer once).
+
+var recLayers = ev.New("TestPropLayeredMerges", "documents of 2-48 layered anchored mappings, each with 0-2 explicit keys from a 5-key alphabet and 1-3 merge sources drawn from the earlier layers (mostly the previous one or two; the same layer may occur twice; sequence form or repeated << entries): the number of merge PATHS grows exponentially with the depth while the merged content has at most 5 keys; oracle = content and order of every layer computed by dynamic programming from the merge rules (explicit beats merged, earlier source beats later, merged keys stand where the merge key stood); ordered.DecodeYAML and pipeline.Parse (layers under an unknown top-level key) must return within 20 s (a watchdog, not a measurement: the unchanged library needs milliseconds) and agree with the oracle; non-trivial = >= 20 layers with >= 2 sources each on the longest chain; distinct by hash of the text")
+
+func TestPropLayeredMerges(t *testing.T) {
+	keys := []string{"a", "b", "c", "d", "e"}
+	ev.Check(t, 400, 8000, func(t *rapid.T) {
+		L := rapid.IntRange(2, 12).Draw(t, "layers")
+		if rapid.IntRange(0, 2).Draw(t, "deep") == 0 {
+			L = rapid.IntRange(20, 48).Draw(t, "deeplayers")
+		}
+		type kv struct{ k, v string }
+		resolved := make([][]kv, L)
+		var b strings.Builder
+		b.WriteString("x-layers:\n")
+		chain := 0 // layers on the chain i-1 <- i that merge the previous layer at least twice (directly or via a diamond)
+		for i := 0; i < L; i++ {
+			type entry struct {
+				key  string // "" = merge entry
+				val  string
+				srcs []int
+			}
+			var ents []entry
+			used := map[string]bool{}
+			for j, c := 0, rapid.IntRange(0, 2).Draw(t, "nexplicit"); j < c; j++ {
+				k := rapid.SampledFrom(keys).Draw(t, "k")
+				if used[k] {
+					continue
+				}
+				used[k] = true
+				ents = append(ents, entry{key: k, val: fmt.Sprintf("L%d%s", i, k)})
+			}
+			if i == 0 && len(ents) == 0 {
+				ents = append(ents, entry{key: "a", val: "L0a"})
+			}
+			if i > 0 {
+				ns := rapid.IntRange(1, 3).Draw(t, "nsrc")
+				var srcs []int
+				for j := 0; j < ns; j++ {
+					lo := max(0, i-2)
+					if rapid.IntRange(0, 5).Draw(t, "far") == 0 {
+						lo = 0
+					}
+					srcs = append(srcs, rapid.IntRange(lo, i-1).Draw(t, "src"))
+				}
+				twice := 0
+				for _, s := range srcs {
+					if s == i-1 || s == i-2 {
+						twice++
+					}
+				}
+				if twice >= 2 {
+					chain++
+				}
+				if len(srcs) > 1 && rapid.Bool().Draw(t, "repeated") {
+					for _, s := range srcs {
+						ents = append(ents, entry{srcs: []int{s}})
+					}
+				} else {
+					ents = append(ents, entry{srcs: srcs})
+				}
+				ents = rapid.Permutation(ents).Draw(t, "order")
+			}
+			// text
+			fmt.Fprintf(&b, "  l%d: &l%d\n", i, i)
+			for _, e := range ents {
+				if e.key != "" {
+					fmt.Fprintf(&b, "    %s: %q\n", e.key, e.val)
+					continue
+				}
+				if len(e.srcs) == 1 && rapid.Bool().Draw(t, "plainalias") {
+					fmt.Fprintf(&b, "    <<: *l%d\n", e.srcs[0])
+					continue
+				}
+				parts := make([]string, len(e.srcs))
+				for j, s := range e.srcs {
+					parts[j] = fmt.Sprintf("*l%d", s)
+				}
+				fmt.Fprintf(&b, "    <<: [%s]\n", strings.Join(parts, ", "))
+			}
+			// oracle for this layer (each earlier layer is already resolved: no path is walked twice)
+			present := map[string]bool{}
+			for _, e := range ents {
+				if e.key != "" {
+					present[e.key] = true
+				}
+			}
+			var out []kv
+			for _, e := range ents {
+				if e.key != "" {
+					out = append(out, kv{e.key, e.val})
+					continue
+				}
+				for _, s := range e.srcs {
+					for _, p := range resolved[s] {
+						if !present[p.k] {
+							present[p.k] = true
+							out = append(out, p)
+						}
+					}
+				}
+			}
+			resolved[i] = out
+		}
+		b.WriteString("steps:\n  - command: x\n")
+		text := []byte(b.String())
+
+		type res struct {
+			p    *pipeline.Pipeline
+			v    any
+			err  error
+			perr error
+		}
+		done := make(chan res, 1)
+		go func() {
+			var r res
+			defer func() {
+				if x := recover(); x != nil {
+					r.err = fmt.Errorf("PANIC: %v", x)
+				}
+				done <- r
+			}()
+			var n yaml.Node
+			if r.err = yaml.Unmarshal(text, &n); r.err != nil {
+				return
+			}
+			r.v, r.err = ordered.DecodeYAML(&n)
+			if r.err != nil {
+				return
+			}
+			r.p, r.perr = pipeline.Parse(bytes.NewReader(text))
+		}()
+		var r res
+		select {
+		case r = <-done:
+		case <-time.After(20 * time.Second):
+			t.Fatalf("decoding / parsing did not return within 20 s on a %d-byte document of %d layered merges whose merged content has at most %d keys per layer\n%s", len(text), L, len(keys), text)
+		}
+		if r.err != nil {
+			t.Fatalf("DecodeYAML: %v\n%s", r.err, text)
+		}
+		if r.perr != nil {
+			t.Fatalf("Parse: %v\n%s", r.perr, text)
+		}
+		check := func(what string, layers any) {
+			lm, ok := layers.(*ordered.MapSA)
+			if !ok {
+				t.Fatalf("%s: x-layers is %T", what, layers)
+			}
+			for i := 0; i < L; i++ {
+				lv, _ := lm.Get(fmt.Sprintf("l%d", i))
+				m, ok := lv.(*ordered.MapSA)
+				if !ok {
+					t.Fatalf("%s: layer %d is %T", what, i, lv)
+				}
+				var got []kv
+				m.Range(func(k string, v any) error { got = append(got, kv{k, fmt.Sprint(v)}); return nil })
+				if !reflect.DeepEqual(got, resolved[i]) && !(len(got) == 0 && len(resolved[i]) == 0) {
+					t.Fatalf("%s: layer %d decodes to %v, the merge rules give %v\n%s", what, i, got, resolved[i], text)
+				}
+			}
+		}
+		top, _ := r.v.(*ordered.MapSA)
+		if top == nil {
+			t.Fatalf("DecodeYAML returned %T", r.v)
+		}
+		lv, _ := top.Get("x-layers")
+		check("DecodeYAML", lv)
+		check("Parse", r.p.RemainingFields["x-layers"])
+		nt := L >= 20 && chain >= L/2
+		recLayers.Case(ev.HashBytes(text), nt, fmt.Sprintf("layers>=20:%v", L >= 20))
+		recLayers.MaybeSample(nt, func() any { return string(text[:min(len(text), 700)]) })
+	})
+}
